@@ -103,6 +103,22 @@ func arityViolations(f *gl.File) []string {
 	return out
 }
 
+// c05Duplicates: a name defined twice is an error in Coq ("already exists"), and the set of
+// definitions Coq sees is then not the set of Go declarations.
+func c05Duplicates(r *core.Run, pkg, combo string, f *gl.File, src string) {
+	seen := map[string]int{}
+	for _, d := range f.Defs() {
+		seen[d.Name]++
+	}
+	r.Count("files_checked_for_duplicate_definitions", 1)
+	for n, k := range seen {
+		if k > 1 {
+			r.Violate("c05-definition-emitted-"+fmt.Sprint(k)+"-times"+sanitizeFlag(combo), fmt.Sprintf("%s is defined %d times in the file emitted for %s under flags [%s]", n, k, pkg, combo), map[string]interface{}{"pkg": pkg, "flags": combo, "source": src})
+			return
+		}
+	}
+}
+
 func defBodies(f *gl.File) map[string]string {
 	m := map[string]string{}
 	for _, d := range f.Defs() {
@@ -279,6 +295,7 @@ func runC05(r *core.Run) (bool, string) {
 			f, _ := gl.ParseFile(p.VFile)
 			base[p.Name] = defBodies(f)
 			c05Arity(r, p.Name, f, srcOf[p.Name])
+			c05Duplicates(r, p.Name, "", f, srcOf[p.Name])
 		}
 	}
 	// the places x operations matrix puts compound operands into every construct
@@ -333,8 +350,10 @@ func runC05(r *core.Run) (bool, string) {
 				continue
 			}
 			c05CompareBodies(r, p.Name, cname, bb, defBodies(f), srcOf[p.Name])
+			c05Duplicates(r, p.Name, cname, f, srcOf[p.Name])
 		}
 	}
+	c05Shapes(r, goose)
 	c05Names(r, goose)
 	c05Examples(r, goose)
 	replayWitnesses(r, goose, "C05", tvOptions{PerPackage: true}, c05Failing)
@@ -672,4 +691,79 @@ func declDefNames(d ast.Decl) []string {
 		}
 	}
 	return out
+}
+
+// c05Shapes: a second corpus that is only translated (under every flag combination), read back
+// and compared — every supported statement form and accepted shape in its host functions, the
+// generated shape families (composite types nested in every type position, ...), and interface
+// conversions needed at several call sites.
+func c05Shapes(r *core.Run, goose string) {
+	var pk []*gen.Package
+	atoms := append(append([]gen.OutsideAtom{}, gen.InsideAtoms...), gen.AcceptedShapeAtoms()...)
+	frng := core.NewRng(r.Seed, "c05-families")
+	atoms = append(atoms, gen.FamilyAtoms("C01", r.Quick(), frng.Intn)...)
+	for _, a := range atoms {
+		a.Light = true
+		pk = append(pk, gen.AtomPackage("s_", a))
+	}
+	pk = append(pk, gen.IfaceConvPackages()...)
+	pkgs := pruneToCompile(r, filepath.Join(r.Scratch, "c05-shapes-prune"), pk)
+	if pkgs == nil {
+		r.Inconclusive("shapes-corpus-does-not-compile")
+		return
+	}
+	var gp []*gorun.Pkg
+	srcOf := map[string]string{}
+	for _, p := range pkgs {
+		gp = append(gp, &gorun.Pkg{Name: p.Name, Files: map[string]string{p.Name + ".go": p.Source}})
+		srcOf[p.Name] = p.Source
+	}
+	dir := filepath.Join(r.Scratch, "c05-shapes")
+	b, err := gorun.Write(dir, gp, []string{"case"})
+	if err != nil {
+		r.Inconclusive("shapes-corpus-not-written")
+		return
+	}
+	base := map[string]map[string]string{}
+	combos := flagCombos
+	if r.Quick() {
+		// the three flags alone, and one of their four combinations (seed-determined)
+		combos = append(append([][]string{}, flagCombos[:4]...), flagCombos[4+frng.Intn(4)])
+	}
+	for ci, combo := range combos {
+		out := filepath.Join(dir, fmt.Sprintf("flags%d", ci))
+		flags := append([]string{"-ignore-errors"}, combo...)
+		if g := b.RunGoose(goose, out, flags); g.Code >= 2 || g.Signaled {
+			core.Parallel(len(gp), 8, func(i int) {
+				b.RunGoose(goose, out, flags, "./cases/"+gp[i].Name)
+			})
+		}
+		cname := strings.Join(combo, " ")
+		for _, p := range gp {
+			vb, err := os.ReadFile(b.VPath(out, p.Name))
+			if err != nil {
+				if _, had := base[p.Name]; had {
+					r.Violate("c05-flags-no-output", "no output under "+cname+" although the default flags produce one", map[string]interface{}{"pkg": p.Name, "source": srcOf[p.Name]})
+				}
+				continue
+			}
+			r.Eval(1)
+			f, perr := gl.ParseFile(string(vb))
+			if perr != nil {
+				r.Violate("c05-shapes-unreadable-"+sanitizeFlag(cname), "output of "+p.Name+" under ["+cname+"] is not well-formed: "+perr.Error(), map[string]interface{}{"pkg": p.Name, "source": srcOf[p.Name], "v": string(vb)})
+				continue
+			}
+			r.Count("shape_files_read", 1)
+			c05Duplicates(r, p.Name, cname, f, srcOf[p.Name])
+			if ci == 0 {
+				base[p.Name] = defBodies(f)
+				c05Arity(r, p.Name, f, srcOf[p.Name])
+				continue
+			}
+			if bb, ok := base[p.Name]; ok {
+				c05CompareBodies(r, p.Name, cname, bb, defBodies(f), srcOf[p.Name])
+			}
+		}
+	}
+	r.Set("shape_corpus_packages", len(gp))
 }
